@@ -1,7 +1,7 @@
 from ast import Attribute, Subscript, Load, NodeVisitor
 
 from .compat import PY2
-from .scope import FuncScope, Flow, SourceScope, ClassScope
+from .scope import FuncScope, Flow, SourceScope, ClassScope, get_first_body_node_loc
 from .name import AssignedName, ImportedName
 from .util import (np, get_expr_end, get_indexes_for_target, visitor, get_any_marked_name)
 
@@ -205,10 +205,11 @@ class extract_visitor(NodeVisitor):
         for h in node.handlers:
             fh = self.make_flow('except', [cur, body])
             if h.name:
+                start = get_first_body_node_loc(h.body) or np(h.body[0])
                 if PY2:
-                    fh.add_name(AssignedName(h.name.id, np(h.body[0]), np(h), h.type))
+                    fh.add_name(AssignedName(h.name.id, start, np(h), h.type))
                 else:
-                    fh.add_name(AssignedName(h.name, np(h.body[0]), np(h), h.type))  # type: ignore[arg-type]
+                    fh.add_name(AssignedName(h.name, start, np(h), h.type))  # type: ignore[arg-type]
             if h.type:
                 # evaluated when the exception arrives: names bound in the try body are visible
                 fh = self.visit_in_flow(h.type, fh)
